@@ -66,7 +66,7 @@ pub fn rule(prop: &str) -> &'static str {
         "C12" => "frames in which every text position in turn carries hostile text (overlong, surrogate, truncated, 0xFF, NUL, wildcards, multi-byte $share names) plus the C11 workload; every packet returned by any front-end is walked field by field; distinct = distinct inputs accepted by at least one front-end",
         "C13" => "every CONNECT of G2 (all flag combinations x 3.1 / 3.1.1 / 5.0) and random CONNECTs presented to the other family's three front-ends, with continuation through decode_with_protocol; all 256 levels x 15 protocol names through both families and Protocol::new; distinct = distinct CONNECT encodings + (family, name, level) triples",
         "C14" => "valid packets x every byte position (all positions up to 2 KiB) x {nine io::ErrorKind values, clean EOF} for the async and poll decoders, x {error kinds, zero-length write, transient Interrupted} for encode_async and the streaming encoder; plus all conversions between the error types and io::Error; distinct = distinct host encodings + conversion cases",
-        "C15" => "values of the variable byte integer domain (thorough: all 2^28; quick: all < 2^16, +-4096 around every width boundary and the top, 2M random) through var_int_len, total_len, header_len, remaining_len, the writer and reader (via the Subscription Identifier property and decode_raw_header) and the poll header state machine; all continuation-bit patterns of 1-5 bytes; first invalid values; distinct = distinct values / patterns",
+        "C15" => "values of the variable byte integer domain (thorough: all 2^28 — exhaustive — for var_int_len, total_len, header_len, remaining_len, the writer and the reader via the Subscription Identifier property and decode_raw_header; the poll header state machine on all values < 2^22, every 257th value above and the last 4096; quick: all < 2^16, +-4096 around every width boundary and the top, 2M random); all continuation-bit patterns of 1-5 bytes; first invalid values; distinct = distinct values / patterns",
         "C16" => "all strings of up to 7 (quick) / 8 (thorough) symbols over {'/','+','#','$','a',NUL,'é','𝄞'} behind each of 22 $share-prefix shapes and look-alikes, long strings around 65535 bytes, through TopicFilter::is_invalid / try_from and (sampled) inside v3/v5 SUBSCRIBE and UNSUBSCRIBE; distinct = strings enumerated (each visited once)",
         "C17" => "the valid filters of C16's enumeration plus long random valid filters: accessors vs the unique split, text round trip, ==/cmp/hash (two hashers) on all pairs within buckets of 64, decoded-vs-constructed filters; distinct = valid filters examined",
         "C18" => "all strings of up to 7 / 8 symbols over {'/','+','#','$','S','a',NUL,'é'} behind {'', '$share/', '$SYS/', '$sys/', '$SYS'}, long strings around the limit, through TopicName::is_invalid / try_from / accessors and (sampled) the six packet routes; distinct = strings enumerated",
